@@ -37,6 +37,9 @@ pub struct SoloCfg {
     pub with_sync_requests: bool,
     /// committee stakes (a listed member with stake 0 has no voting rights)
     pub stakes: Vec<u32>,
+    /// correctly signed blocks that lack a justification: rounds skipped without a TC, and blocks
+    /// whose QC is of a round at or above their own (they may be stored, never voted for)
+    pub with_unjustified: bool,
 }
 
 pub struct Uni2 {
@@ -163,6 +166,24 @@ pub fn menu(s: &Search, sc: &SoloCfg, u: &Uni2, stale_blocks: &[Block]) -> Vec<E
             push(ConsensusMessage::SyncRequest(b.digest(), w.name(others[0])), &mut evs);
         }
     }
+    if sc.with_unjustified {
+        let next_led_by_other = |from: Round| -> Round { (from..from + 4).find(|r| w.ref_leader(*r) != t).unwrap() };
+        // a: skips rounds on the genesis QC without a TC; b: skips again on QC(a) without a TC;
+        // bad / bad2: a LOW round on QC(b) (a QC of a higher round), with and without a TC
+        let ra = next_led_by_other(2);
+        let a = w.block(w.ref_leader(ra), ra, QC::genesis(), None, vec![]);
+        let rb = next_led_by_other(ra + 2);
+        let b = w.block(w.ref_leader(rb), rb, w.qc(&a, &others), None, vec![]);
+        let rbad = next_led_by_other(2);
+        let tc = w.tc(rbad - 1, &others.iter().map(|o| (*o, 0)).collect::<Vec<_>>());
+        let bad = w.block(w.ref_leader(rbad), rbad, w.qc(&b, &others), Some(tc), vec![]);
+        let bad2 = w.block(w.ref_leader(rbad), rbad, w.qc(&b, &others), None, vec![]);
+        // same round as its QC
+        let same = w.block(w.ref_leader(rb), rb, w.qc(&b, &others), None, vec![]);
+        for x in [a, b, bad, bad2, same] {
+            push(ConsensusMessage::Propose(x), &mut evs);
+        }
+    }
     if sc.with_invalid {
         use crypto::Digest;
         let mut bs: Vec<&Block> = u.blocks.values().filter(|b| b.author != w.name(t)).collect();
@@ -230,6 +251,17 @@ pub fn menu(s: &Search, sc: &SoloCfg, u: &Uni2, stale_blocks: &[Block]) -> Vec<E
             }
             push(ConsensusMessage::Timeout(w.timeout(z, 1, QC::genesis())), &mut evs);
             push(ConsensusMessage::Timeout(w.timeout(z, 2, QC::genesis())), &mut evs);
+        }
+        // blocks of the round's leader whose "QC" names an existing block but claims round 0 and has
+        // no signatures (a certificate is the genesis QC only if hash AND round are the genesis ones)
+        for b in per_round.iter().take(2) {
+            for r in [b.round + 1, b.round + 2] {
+                let leader = w.ref_leader(r);
+                if leader != t && r <= sc.max_round + 1 {
+                    let fake = QC { hash: b.digest(), round: 0, votes: vec![] };
+                    push(ConsensusMessage::Propose(w.block(leader, r, fake, None, vec![])), &mut evs);
+                }
+            }
         }
         // a TC below quorum
         push(ConsensusMessage::TC(w.tc(2, &[(others[0], 0), (others[1], 0)])), &mut evs);
@@ -395,5 +427,6 @@ pub fn default_cfg(node: usize, r: Round, tier: Tier) -> SoloCfg {
         with_payload: false,
         with_sync_requests: false,
         stakes: vec![1, 1, 1, 1],
+        with_unjustified: false,
     }
 }
